@@ -103,6 +103,11 @@ func (ctx Ctx) coqTypeOfType(n ast.Node, t types.Type) coq.Type {
 		if t.Obj().Pkg().Name() == "disk" && t.Obj().Name() == "Disk" {
 			return coq.TypeIdent("disk.Disk")
 		}
+		if ctx.dep != nil && t.Obj().Pkg().Path() == ctx.pkgPath {
+			// a type reached through type inference (e.g. var x T) is a
+			// dependency just like one written in the source
+			ctx.dep.addDep(t.Obj().Name())
+		}
 		if info, ok := ctx.getStructInfo(t); ok {
 			return coq.StructName(info.name)
 		}
